@@ -382,7 +382,7 @@ class _Calls:
         s.calls = calls
 
 
-def g_dtcwt_forward_symJ(o_dim=2, ri_dim=-1, skip=False, include=False, mode='symmetric', canary=False):
+def g_dtcwt_forward_symJ(o_dim=2, ri_dim=-1, skip=False, include=False, mode='symmetric', canary=False, as_names=True):
     """DTCWTForward.__init__ + forward with a SYMBOLIC number of levels J >= 1 (uniform skip_hps / include_scale flags).
     Level-loop invariant, proved by the INIT / STEP / EXIT obligations below:
         before iteration j (1 <= j < J):  `low` is the low-pass of level j, a tensor with EVEN extents;
@@ -397,7 +397,7 @@ def g_dtcwt_forward_symJ(o_dim=2, ri_dim=-1, skip=False, include=False, mode='sy
     import ast as _ast
     from .modules_dwt import loop_state
     Jv = z3.Int('J')
-    oid = 'DTCWTForward[J symbolic,o=%d,ri=%d,skip=%s,include=%s]' % (o_dim, ri_dim, skip, include)
+    oid = 'DTCWTForward[J symbolic,o=%d,ri=%d,skip=%s,include=%s,%s]' % (o_dim, ri_dim, skip, include, 'names' if as_names else 'tuples')
     base = BASE + [Jv >= 1]
     mi = CD.MODE2INT[mode]
 
@@ -443,7 +443,11 @@ def g_dtcwt_forward_symJ(o_dim=2, ri_dim=-1, skip=False, include=False, mode='sy
             env[tv] = AJ
             side['exit'] = {'low': AJ, 'lists': lists, 'tv': tv}
         it.loop_contracts[((T2, 'DTCWTForward.forward'), 0)] = rule
-        kw = dict(J=Jv, o_dim=o_dim, ri_dim=ri_dim, mode=mode, biort='near_sym_a', qshift='qshift_a', skip_hps=skip, include_scale=include)
+        kw = dict(J=Jv, o_dim=o_dim, ri_dim=ri_dim, mode=mode, skip_hps=skip, include_scale=include)
+        if as_names:
+            kw.update(biort='near_sym_a', qshift='qshift_a')
+        else:
+            kw.update(biort=(bi['h0o'], bi['h1o']), qshift=(qs['h0a'], qs['h0b'], qs['h1a'], qs['h1b']))
         self = prims.instantiate(it, RepoClass(T2, 'DTCWTForward'), [], kw)
         x = CD.data_tensor('x', (Bn, C, H, W))
         out = it.call(T2, 'DTCWTForward.forward', [self, x], {})
@@ -516,5 +520,198 @@ def g_dtcwt_forward_symJ(o_dim=2, ri_dim=-1, skip=False, include=False, mode='sy
                       'proved' if ok else 'refuted', 'structural', 0))
         obs.append(solve.prove(pid + '/EXIT/band-pass-list-has-J-entries', 'POST', c.pc,
                                I(ext['lists'][side['band']].length()) == Jv if side.get('band') else z3.BoolVal(False), MV + [Jv]))
+        obs += solve.safety_obligations(pid, c, MV + [Jv])
+    return obs, info
+
+
+# ---------------------------------------------------------------------------
+# inverse module, SYMBOLIC number of levels
+# ---------------------------------------------------------------------------
+class SPyr:
+    """the list of band-pass levels handed to DTCWTInverse: symbolic length J >= 1, every entry a 6-D tensor of the module's
+    layout whose extents are unknowns (absent levels stay with the unrolled groups).  Supports exactly what a level loop needs:
+    len, [0], [1:], [::-1], iteration through a loop contract, an element-wise comprehension, zip with a symbolic range."""
+    def __init__(s, J, perm, lo=0, rev=False, root=None, fmap=None):
+        s.J, s.perm, s.lo, s.rev, s.root, s.fmap = J, perm, lo, rev, root or s, fmap
+        if root is None:
+            s.elems = {}
+
+    def length(s):
+        return simp(I(s.J) - s.lo)
+
+    def element(s, tag):
+        """the element called `tag` ('first' = index 0, 'generic' = the one the loop is looking at)"""
+        root = s.root
+        if tag not in root.elems:
+            r, c_ = fresh_int('r_' + tag), fresh_int('c_' + tag)
+            ctx().assume(z3.And(r >= 1, c_ >= 1))
+            d = [Bn, C, 6, r, c_, 2]
+            root.elems[tag] = CD.data_tensor('yh_' + tag, tuple(d[p] for p in s.perm))
+        return root.elems[tag]
+
+    def get(s, k):
+        if isinstance(k, slice):
+            if k.start is None and k.stop is None and k.step == -1:
+                return SPyr(s.J, s.perm, s.lo, not s.rev, s.root, s.fmap)
+            if k.stop is None and k.step is None and is_conc(k.start) and k.start >= 0 and not s.rev:
+                return SPyr(s.J, s.perm, s.lo + k.start, s.rev, s.root, s.fmap)
+            raise Unsupported('slice %r of the symbolic pyramid' % (k,))
+        if is_conc(k) and k == 0 and s.lo == 0 and not s.rev:
+            return s.apply_map(s.element('first'))
+        raise Unsupported('index %r into the symbolic pyramid' % (k,))
+
+    def apply_map(s, v):
+        if s.fmap is None:
+            return v
+        it, elt, target, env = s.fmap
+        e2 = dict(env)
+        it.assign(target, v, e2)
+        return it.ev(elt, e2)
+
+
+class SymZip:
+    def __init__(s, parts):
+        s.parts = parts
+
+
+def g_dtcwt_inverse_symJ(o_dim=2, ri_dim=-1, mode='symmetric', canary=False):
+    """DTCWTInverse.__init__ + forward on a pyramid with a SYMBOLIC number of levels J >= 1 (every level present; absent levels
+    are covered by the unrolled groups).  Precondition on the shapes (as for the unrolled groups): the low-pass handed to a level is
+    twice the band-pass extent of that level, or that plus 2.
+        INIT  before the loop `low` is the given low-pass; the loop visits levels J..2 (band-pass list [1:] reversed)
+        STEP  (generic level, arbitrary low-pass A of an admissible size): the low-pass is cropped by one sample at each end along an
+              axis iff it is not twice the band-pass extent there; exactly one INV_J2PLUS.apply(cropped, band-pass, g0a, g1a, g0b, g1b,
+              layout, mode); its result becomes `low`; nothing else is written
+        EXIT  the same crop rule against level 1, one INV_J1.apply(cropped, level-1 band-pass, g0o, g1o, layout, mode), whose result is returned"""
+    from .modules_dwt import loop_state
+    Jv = z3.Int('J')
+    oid = 'DTCWTInverse[J symbolic,o=%d,ri=%d]' % (o_dim, ri_dim)
+    perm = CT.layout_perm(o_dim, ri_dim)
+    hpos, wpos = perm.index(3), perm.index(4)
+    base = BASE + [Jv >= 1]
+    mi = CD.MODE2INT[mode]
+
+    def admissible(low, s):
+        c = ctx()
+        c.assume(z3.Or(I(low.shape[2]) == 2 * I(s.shape[hpos]), I(low.shape[2]) == 2 * I(s.shape[hpos]) + 2))
+        c.assume(z3.Or(I(low.shape[3]) == 2 * I(s.shape[wpos]), I(low.shape[3]) == 2 * I(s.shape[wpos]) + 2))
+
+    def run():
+        c = ctx()
+        bi, qs = tables()
+        rc = Recorder()
+        it = Interp(contracts=module_callees_rec(bi, qs, rc))
+        side = {}
+        pyr = SPyr(Jv, perm)
+
+        def rule(it_, node, zipped, env):
+            parts = zipped.parts if isinstance(zipped, SymZip) else [zipped]
+            lists = [p for p in parts if isinstance(p, SPyr)]
+            rngs = [p for p in parts if isinstance(p, prims.SymRange)]
+            if len(lists) != 1:
+                raise Unsupported('level loop over something else than the band-pass list')
+            L = lists[0]
+            tv, _ = loop_state(node, env, 'low', None)
+            if tv is None:
+                raise Unsupported('synthesis loop without a carried tensor')
+            side['init'] = {'low': env[tv], 'list': (L.lo, L.rev, L.root is pyr), 'ranges': [(r.lo, r.hi, getattr(r, 'step', 1)) for r in rngs], 'ncalls': len(rc.calls)}
+            S = L.apply_map(L.element('generic'))
+            ra, ca = fresh_int('ra'), fresh_int('ca')
+            c.assume(z3.And(ra >= 1, ca >= 1))
+            T0 = env[tv]
+            A = CD.data_tensor('A', (T0.shape[0], T0.shape[1], ra, ca))
+            if isinstance(S, STensor) and S.ndim == 6:
+                admissible(A, S)
+            env[tv] = A
+            n0 = len(rc.calls)
+            before = dict(env)
+            vals = []
+            for p in parts:
+                vals.append(S if isinstance(p, SPyr) else fresh_int('j'))
+            it_.assign(node.target, tuple(vals) if isinstance(zipped, SymZip) else vals[0], env)
+            tnames = {q.id for q in __import__('ast').walk(node.target) if isinstance(q, __import__('ast').Name)}
+            it_.run(node.body, env)
+            side['step'] = {'A': A, 'S': S, 'calls': rc.calls[n0:], 'low': env[tv],
+                            'other': [k for k in env if k in before and env[k] is not before[k] and k != tv and k not in tnames and k not in ('r', 'c', 'r1', 'c1')]}
+            rj, cj = fresh_int('rJ'), fresh_int('cJ')
+            c.assume(z3.And(rj >= 1, cj >= 1))
+            AJ = CD.data_tensor('AJ', (T0.shape[0], T0.shape[1], rj, cj))
+            first = pyr.apply_map(pyr.element('first'))
+            if isinstance(first, STensor) and first.ndim == 6:
+                admissible(AJ, first)
+            env[tv] = AJ
+            side['exit'] = {'low': AJ, 'ncalls': len(rc.calls)}
+        it.loop_contracts[((T2, 'DTCWTInverse.forward'), 0)] = rule
+        it.symbolic_iter = {'SPyr': SPyr, 'SymZip': SymZip}
+        self = prims.instantiate(it, RepoClass(T2, 'DTCWTInverse'), [], dict(o_dim=o_dim, ri_dim=ri_dim, mode=mode, biort='near_sym_a', qshift='qshift_a'))
+        rl, cl = fresh_int('rl'), fresh_int('cl')
+        c.assume(z3.And(rl >= 1, cl >= 1))
+        low = CD.data_tensor('yl', (Bn, C, rl, cl))
+        # J == 1: the given low-pass goes straight to level 1
+        side['yl'] = low
+        out = it.call(T2, 'DTCWTInverse.forward', [self, (low, pyr)], {})
+        return out, rc, side, (self, low), bi, qs, pyr
+    obs = []
+    info = {'paths': 0}
+    for k, (c, res) in enumerate(explore(run, base, 4000)):
+        CUR.ctx = c
+        if c.solver.check() == z3.unsat:
+            continue
+        pid = '%s/path%d' % (oid, k)
+        info['paths'] += 1
+        if res[0] == 'raise':
+            obs.append(Ob(pid + '/unexpected-raise', 'POST', 'refuted', 'path', 0, {'what': '%s: %s' % (res[1].kind, res[1].msg), 'model': {}}))
+            continue
+        out, rc, side, owned, bi, qs, pyr = res[1]
+        obs += verify.frame_obs(pid, c, owned)
+        if 'init' not in side:
+            obs.append(Ob(pid + '/loop-reached', 'POST', 'refuted', 'structural', 0, {'model': {}}))
+            continue
+        ini, stp, ext = side['init'], side['step'], side['exit']
+        # INIT
+        obs.append(Ob(pid + '/INIT/low==given-lowpass', 'INV', 'proved' if ini['low'] is side['yl'] else 'refuted', 'structural', 0))
+        lo_, rev_, same_ = ini['list']
+        obs.append(Ob(pid + '/INIT/loop-visits-bandpass[1:]-reversed', 'INV', 'proved' if (lo_ == 1 and rev_ and same_) else 'refuted', 'structural', 0,
+                      {} if (lo_ == 1 and rev_ and same_) else {'slice_from': lo_, 'reversed': rev_, 'model': {}}))
+        obs.append(Ob(pid + '/INIT/no-level-application-before-the-loop', 'INV', 'proved' if ini['ncalls'] == 0 else 'refuted', 'structural', 0))
+        for (a_, b_, st_) in ini['ranges']:
+            obs.append(solve.prove(pid + '/INIT/index-range-has-J-1-entries', 'INV', c.pc,
+                                   (I(a_) - I(b_) == Jv - 1) if st_ == -1 else (I(b_) - I(a_) == Jv - 1), MV + [Jv]))
+        # STEP against the reference step
+        A, S = stp['A'], stp['S']
+        ok6 = isinstance(S, STensor) and S.ndim == 6
+        obs.append(Ob(pid + '/STEP/element-normalisation-keeps-present-levels', 'INV', 'proved' if (ok6 and S is pyr.elems.get('generic')) else 'refuted', 'structural', 0))
+        if ok6:
+            rs2 = Recorder()
+            it2 = Interp()
+            I2 = rs2.wrap(TFk + ':INV_J2PLUS.apply', CT.INV_J2PLUS_apply_contract, 2)
+
+            def crop(low, s):
+                cc = ctx()
+                if cc.decide(I(low.shape[2]) != 2 * I(s.shape[hpos])):
+                    low = tget(low, (slice(None), slice(None), slice(1, -1)))
+                if cc.decide(I(low.shape[3]) != 2 * I(s.shape[wpos])):
+                    low = tget(low, (slice(None), slice(None), slice(None), slice(1, -1)))
+                return low
+            ga, gb = ('g0b', 'g0a') if canary else ('g0a', 'g0b')
+            I2(it2, crop(A, S), S, T(it2, qs[ga]), T(it2, qs['g1a']), T(it2, qs[gb]), T(it2, qs['g1b']), o_dim, ri_dim, mi)
+            obs += compare_records(pid + '/STEP', _Calls(stp['calls']), rs2, c.pc)
+            if len(stp['calls']) == 1:
+                obs.append(Ob(pid + '/STEP/low==result-of-the-level', 'INV', 'proved' if stp['low'] is stp['calls'][0][3][0] else 'refuted', 'structural', 0))
+            obs.append(Ob(pid + '/STEP/nothing-else-rebound', 'INV', 'proved' if not stp['other'] else 'refuted', 'structural', 0,
+                          {} if not stp['other'] else {'names': stp['other'], 'model': {}}))
+        # EXIT against the reference level-1 step
+        first = pyr.elems.get('first')
+        calls_exit = rc.calls[ext['ncalls']:]
+        if first is not None:
+            rs3 = Recorder()
+            it3 = Interp()
+            I1 = rs3.wrap(TFk + ':INV_J1.apply', CT.INV_J1_apply_contract, 2)
+            I1(it3, crop(ext['low'], first), first, T(it3, bi['g0o']), T(it3, bi['g1o']), o_dim, ri_dim, mi)
+            obs += compare_records(pid + '/EXIT', _Calls(calls_exit), rs3, c.pc)
+            ok = len(calls_exit) == 1 and out is calls_exit[0][3][0]
+            obs.append(Ob(pid + '/EXIT/returns-the-level-1-result', 'POST', 'proved' if ok else 'refuted', 'structural', 0))
+        else:
+            obs.append(Ob(pid + '/EXIT/level-1-band-pass-used', 'POST', 'refuted', 'structural', 0, {'model': {}}))
         obs += solve.safety_obligations(pid, c, MV + [Jv])
     return obs, info
